@@ -53,28 +53,36 @@ def verify(wt, name, prop, needs):
         print("  ", r)
 
 
-def run(names, tier, props):
-    rows = []
-    rc, out = sh("git -C /repo status --porcelain")
-    assert out.strip() == "", "/repo is not clean:\n" + out
-    for name in names:
+def run(names, tier, props, jobs=1):
+    """Each seeded change is applied to its own scratch worktree of /repo (removed afterwards); the checks run
+    against it through VERIF_REPO, with evidence redirected so that /verif/evidence is not touched."""
+    from concurrent.futures import ThreadPoolExecutor
+
+    def one(name):
         d = os.path.join(SEEDED, name)
         meta = json.load(open(os.path.join(d, "meta.json")))
         plist = props or [meta["property"]] + meta.get("also_check", [])
-        rc, out = sh("git -C /repo apply %s" % os.path.join(d, "patch.diff"))
+        wt = "/tmp/seedwt-%s-%d" % (name, os.getpid())
+        rc, out = sh("git -C /repo worktree add -q --detach %s HEAD && git -C %s apply %s" % (wt, wt, os.path.join(d, "patch.diff")))
         assert rc == 0, out
+        rows = []
         try:
             for p in plist:
                 t0 = time.time()
-                rc, out = sh("cd %s && ./check %s --tier %s" % (VERIF, p, tier))
+                rc, out = sh("cd %s && VERIF_REPO=%s VERIF_EVIDENCE_DIR=%s/_evidence ./check %s --tier %s" % (VERIF, wt, wt, p, tier))
                 viol = [l for l in out.splitlines() if l.startswith("VIOLATION")]
                 clause = [l.strip() for l in out.splitlines() if l.strip().startswith("clauses:")]
                 rows.append((name, meta["property"], p, rc, len(viol), clause[0][:150] if clause else out.strip().splitlines()[-1][:150], time.time() - t0))
-                print("%-28s seeded for %s, check %s: exit %d  %s" % (name, meta["property"], p, rc, rows[-1][5]), flush=True)
+                print("%-32s seeded for %s, check %s: exit %d  %s" % (name, meta["property"], p, rc, rows[-1][5]), flush=True)
         finally:
-            sh("git -C /repo checkout -- .")
-            sh("cd %s && git checkout -- evidence 2>/dev/null" % VERIF)
-    return rows
+            sh("git -C /repo worktree remove --force %s" % wt)
+        return rows
+
+    allrows = []
+    with ThreadPoolExecutor(max_workers=jobs) as ex:
+        for rows in ex.map(one, names):
+            allrows.extend(rows)
+    return allrows
 
 
 if __name__ == "__main__":
@@ -83,6 +91,7 @@ if __name__ == "__main__":
     else:
         args = sys.argv[2:]
         tier = "quick"
+        jobs = 1
         props = None
         names = []
         i = 0
@@ -93,9 +102,14 @@ if __name__ == "__main__":
             elif args[i] == "--props":
                 props = args[i + 1].split(",")
                 i += 2
+            elif args[i] == "--jobs":
+                jobs = int(args[i + 1])
+                i += 2
             else:
                 names.append(args[i])
                 i += 1
         if not names:
             names = sorted(n for n in os.listdir(SEEDED) if os.path.exists(os.path.join(SEEDED, n, "meta.json")))
-        run(names, tier, props)
+        rows = run(names, tier, props, jobs)
+        missed = [r for r in rows if r[3] != 1]
+        print("%d runs, %d not detected" % (len(rows), len(missed)))
